@@ -244,7 +244,7 @@ impl Matrix {
         let n = self.nrows.min(self.ncols);
         let mut diag = Vector::with_capacity(n);
         for i in 0..n {
-            diag.push(self.data[i * n + i]);
+            diag.push(self.data[i * self.ncols + i]);
         }
         diag
     }
